@@ -18,8 +18,9 @@ claim("C06",
       "(R-CMP-1) the three-way kernels over all orderings × NaN flags; (R-CMP-2) the six comparison operators as functions of the 6-valued comparison class, cell by cell against the documented table, plus the algebraic laws a<b⇔b>a, a<>b⇔NOT(a=b), symmetry of =, a<=b⇔(a<b OR a=b), and Compare's operator→function dispatch; "
       "(R-CMP-3) the coercion ladder of CompareCombinedly in every abstract world (null-ness × convertibility × orderings), including rung order and 'same conversion on both operands'; "
       "(R-CMP-4) Calculate's integer→float→NULL rungs, the zero-divisor error, and agreement of the integer and float operator tables (% is the truncated remainder). "
+      "(R-CMP-5) AND / OR / NOT of evalLogic and evalUnaryLogic over all ternary combinations; (R-CMP-6) BETWEEN = (a>=lo) AND (a<=hi) with the right operands, NOT BETWEEN, NULL operand, IN = ANY '=', NOT IN = ALL '<>'; (R-REL-1) every ternary truth test separates the documented classes. "
       "A test samples value pairs; these tables are total.",
-      "Not decided: the numeric content of conversions (strconv parsing/formatting, datetime formats), overflow behaviour, the BETWEEN/IN/ANY/ALL/CASE expansions and Kleene short-circuits (planned R-CMP-5/6). Abstraction: scalars are compared only through ==,<,> (one consistent ordering per pair) and math.IsNaN.",
+      "Not decided: the numeric content of conversions (strconv parsing/formatting, datetime formats), overflow behaviour, the CASE expansion beyond its truth test (R-REL-1), LIKE and IS. Abstraction: scalars are compared only through ==,<,> (one consistent ordering per pair) and math.IsNaN.",
       "finite-domain abstract interpretation of go/ssa with exhaustive world enumeration; specification tables and algebraic laws checked cell by cell",
       "DESIGN.md §3 C06")
 
